@@ -351,6 +351,10 @@ func (m *Mint) GetMintQuoteState(quoteId string) (storage.MintQuote, error) {
 func (m *Mint) getMintQuoteState(quoteId string) (storage.MintQuote, error) {
 	mintQuote, err := m.db.GetMintQuote(quoteId)
 	if err != nil {
+		if !errors.Is(err, sql.ErrNoRows) {
+			errmsg := fmt.Sprintf("error getting mint quote from db: %v", err)
+			return storage.MintQuote{}, cashu.BuildCashuError(errmsg, cashu.DBErrCode)
+		}
 		return storage.MintQuote{}, cashu.QuoteNotExistErr
 	}
 
@@ -495,7 +499,8 @@ func (m *Mint) MintTokens(mintTokensRequest nut04.PostMintBolt11Request) (cashu.
 		// update mint quote to previous state if there was an error
 		if err != nil {
 			if err := m.db.UpdateMintQuoteState(mintQuote.Id, previousState); err != nil {
-				return nil, err
+				errmsg := fmt.Sprintf("error updating mint quote state: %v", err)
+				return nil, cashu.BuildCashuError(errmsg, cashu.DBErrCode)
 			}
 			return nil, err
 		}
@@ -712,6 +717,10 @@ func (m *Mint) RequestMeltQuote(meltQuoteRequest nut05.PostMeltQuoteBolt11Reques
 func (m *Mint) GetMeltQuoteState(ctx context.Context, quoteId string) (storage.MeltQuote, error) {
 	meltQuote, err := m.db.GetMeltQuote(quoteId)
 	if err != nil {
+		if !errors.Is(err, sql.ErrNoRows) {
+			errmsg := fmt.Sprintf("error getting melt quote from db: %v", err)
+			return storage.MeltQuote{}, cashu.BuildCashuError(errmsg, cashu.DBErrCode)
+		}
 		return storage.MeltQuote{}, cashu.QuoteNotExistErr
 	}
 
@@ -849,6 +858,10 @@ func (m *Mint) MeltTokens(ctx context.Context, meltTokensRequest nut05.PostMeltB
 
 	meltQuote, err := m.db.GetMeltQuote(meltTokensRequest.Quote)
 	if err != nil {
+		if !errors.Is(err, sql.ErrNoRows) {
+			errmsg := fmt.Sprintf("error getting melt quote from db: %v", err)
+			return storage.MeltQuote{}, cashu.BuildCashuError(errmsg, cashu.DBErrCode)
+		}
 		return storage.MeltQuote{}, cashu.QuoteNotExistErr
 	}
 	if meltQuote.State == nut05.Paid {
